@@ -12,7 +12,7 @@ use std::str::FromStr;
 pub const NAME_POOL: &[&str] = &["a", "b", "name", "id", "record", "opt", "service", "func", "type", "vec", "query", "oneway", "blob", "principal",
     "nat", "null", "reserved", "empty", "import", "composite_query", "a b", "x-y", "1a", "", "héllo", "日本", "\"q\"", "back\\slash", "new\nline", "tab\t",
     "*/", "${x}", "_", "_0", "__", "A", "Self", "self", "fn", "class", "return", "async", "await", "let", "var", "function", "constructor", "prototype",
-    "Type", "Ref", "Use", "Match", "loop_count", "fooBar"];
+    "Type", "Ref", "Use", "Match", "loop_count", "fooBar", "__proto__", "a\u{0}1", "\u{0}7", "IDL", "toString", "hasOwnProperty"];
 thread_local! { static NAMES: HashMap<u32, &'static str> = NAME_POOL.iter().map(|n| (candid::idl_hash(n), *n)).collect(); }
 pub fn quote(s: &str) -> String {
     let bare = !s.is_empty() && s.is_ascii() && s.chars().enumerate().all(|(i, c)| if i == 0 { c.is_ascii_alphabetic() || c == '_' } else { c.is_ascii_alphanumeric() || c == '_' })
@@ -177,7 +177,7 @@ fn sprinkle_names(r: &mut Rng, t: &T) -> T {
         o => o.clone(),
     }
 }
-const DEF_NAMES: &[&str] = &["A", "B", "C", "D", "List", "t", "class", "class_", "return", "Self", "type_", "opt_", "Result", "_x"];
+const DEF_NAMES: &[&str] = &["A", "B", "C", "D", "List", "t", "class", "class_", "return", "Self", "type_", "opt_", "Result", "_x", "IDL", "IDL_", "Principal"];
 pub fn gen_program(r: &mut Rng, with_actor: bool) -> (Env, Option<T>) {
     let cfg = GenCfg { max_depth: 2, refs: true, var_bias: 4 };
     let k = r.range(0, 5) as usize;
@@ -204,7 +204,12 @@ pub fn gen_program(r: &mut Rng, with_actor: bool) -> (Env, Option<T>) {
                 }
                 _ => s,
             };
-            env.push((n.clone(), s)); T::var(&n)
+            env.push((n.clone(), s));
+            // ... reached through one more name (an alias of the definition)
+            if !pool.is_empty() && r.coin(1, 3) {
+                let j = r.below(pool.len() as u64) as usize; let al = pool.remove(j).to_string();
+                env.push((al.clone(), T::var(&n))); T::var(&al)
+            } else { T::var(&n) }
         } else { s };
         // sometimes a service constructor, with no, one or two init arguments
         Some(match r.below(4) {
